@@ -135,8 +135,70 @@ fn main() {
             write_events(&mut w, &evs, 1);
             eprintln!("simrun: replayed {} events, {} inapplicable choices", evs.len(), skipped);
         }
+        "replaymc" => {
+            // --lines: one JSON object per line {"h":[choice,...]} (TLC schedules); --cfg: ClusterCfg json
+            let path = arg(&args, "--lines").expect("--lines");
+            let cfg: ClusterCfg = serde_json::from_reader(File::open(arg(&args, "--cfg").expect("--cfg")).unwrap()).unwrap();
+            let f = std::io::BufReader::new(File::open(&path).unwrap());
+            use std::io::BufRead;
+            let mut run = 0u64;
+            let (mut total, mut skipped) = (0usize, 0usize);
+            for line in f.lines() {
+                let line = line.unwrap();
+                if line.trim().is_empty() {
+                    continue;
+                }
+                let v: serde_json::Value = serde_json::from_str(&line).unwrap();
+                run += 1;
+                let mut cl = Cluster::new(cfg.clone());
+                reset_line(&mut w, run, "mc", run, &cl.cfg);
+                let hs = v["h"].as_array().unwrap();
+                // the Init choice carries the timeouts drawn at start
+                if let Some(rts) = hs.first().and_then(|c| c.get("rts")) {
+                    for (k, id) in cfg.ids.iter().enumerate() {
+                        let rt = match rts {
+                            serde_json::Value::Array(a) => a.get((*id - 1) as usize).and_then(|x| x.as_u64()),
+                            serde_json::Value::Object(o) => o.get(&id.to_string()).and_then(|x| x.as_u64()),
+                            _ => None,
+                        };
+                        if let Some(rt) = rt {
+                            cl.nodes[k].rt_next = rt as usize;
+                        }
+                    }
+                }
+                let mut evs = cl.init_all();
+                for c in hs.iter().skip(1) {
+                    if let Some(rt) = c.get("rt").and_then(|x| x.as_u64()) {
+                        let n = c.get("n").and_then(|x| x.as_u64()).or_else(|| c["m"].get("to").and_then(|x| x.as_u64()));
+                        if let Some(n) = n {
+                            let i = cl.slot(n);
+                            cl.nodes[i].rt_next = rt as usize;
+                        }
+                    }
+                    let mut cv = c.clone();
+                    if let Some(o) = cv.as_object_mut() {
+                        o.remove("rt");
+                        o.remove("ld");
+                        if o.get("ev").and_then(|x| x.as_str()) == Some("Restart") {
+                            // the spec restarts at its own applied index; -1 lets the harness pick the same default
+                            o.insert("applied".into(), serde_json::json!(-1));
+                        }
+                    }
+                    match serde_json::from_value::<Choice>(cv.clone()) {
+                        Ok(ch) => match cl.apply_choice(&ch) {
+                            Some(e) => evs.push(e),
+                            None => skipped += 1,
+                        },
+                        Err(e) => panic!("bad choice {}: {}", cv, e),
+                    }
+                }
+                total += evs.len();
+                write_events(&mut w, &evs, run);
+            }
+            eprintln!("simrun: replayed {} schedules, {} events, {} inapplicable choices", run, total, skipped);
+        }
         _ => {
-            eprintln!("usage: simrun gen|replay ...");
+            eprintln!("usage: simrun gen|replay|replaymc ...");
             std::process::exit(2);
         }
     }
